@@ -54,7 +54,7 @@ var (
 	allD2s      = []string{"none", "dead", "alive", "conv", "diffsig"}
 	allI2s      = []string{"none", "diffsig", "embeds"}
 	allWheres   = []string{"run", "init", "varinit", "closurevar"}
-	allVarKinds = []string{"const", "funclit", "mapread", "call", "closurecall", "methodcall", "recv", "convcall", "assertpanic", "indexpanic", "divpanic", "nilderef", "slicearrpanic"}
+	allVarKinds = []string{"const", "funclit", "mapread", "call", "closurecall", "methodcall", "recv", "convcall", "namedfunccall", "assertpanic", "indexpanic", "divpanic", "nilderef", "slicearrpanic"}
 )
 
 const cfgFull = "SPECIFICATION Spec\nINVARIANT Sound Indexed AtDone Emit\nPROPERTY Terminates\nCHECK_DEADLOCK FALSE\n"
